@@ -6,7 +6,8 @@ rnd, A, B, remarks = sys.argv[1], sys.argv[2], sys.argv[3], sys.argv[4]
 root = os.path.dirname(os.path.dirname(os.path.abspath(__file__)))
 txt = open(os.path.join(root, remarks)).read()
 sections = dict((m.group(1), m.group(2).strip()) for m in re.finditer(r"^## (C\d\d)\n(.*?)(?=^## |\Z)", txt, re.S | re.M))
-os.makedirs("/tmp/build", exist_ok=True)
+OUT = "/tmp/build%s" % rnd
+os.makedirs(OUT, exist_ok=True)
 for i in range(1, 21):
     pid = "C%02d" % i
     rows = []
@@ -72,5 +73,5 @@ that misfires under 16 parallel workers, very slow cases) pass its name: `pbt.Fu
 * Final message: what you added, the runs you made (commands and outcomes), findings on the unchanged tree with concrete
   inputs and the candidate diff, anything you could not close and why.
 """
-    open("/tmp/build/%s.task.md" % pid, "w").write(t)
-print("tasks under /tmp/build")
+    open(OUT + "/%s.task.md" % pid, "w").write(t)
+print("tasks under", OUT)
